@@ -20,6 +20,7 @@
 #include "libfive/tree/opcode.hpp"
 #include "libfive/tree/archive.hpp"
 #include "libfive/solve/solver.hpp"
+#include "libfive/eval/evaluator.hpp"
 #include "libfive/render/discrete/heightmap.hpp"
 #include "libfive/render/discrete/voxels.hpp"
 #include "libfive/eval/eval_jacobian.hpp"
@@ -513,6 +514,108 @@ int main(int argc, char** argv) {
                     res_s += " w" + std::to_string(workers) + "bad=" + std::to_string(bad) + first;
                 }
                 out(res_s);
+            }
+            else if (c == "history") {
+                // history h nv (initial var values)* then queries, each "|" separated:
+                //   V x y z | B n seed | D x y z | DS n seed | F x y z | I x y z | R lo3 hi3 | P lo3 hi3 p3 | VP x y z
+                //   G x y z | SV k val | UV n (k val)* | A n seed | AD n seed
+                Tree topt = H(t[1]).optimized();
+                size_t nv = std::stoul(t[2]);
+                std::map<Tree::Id, float> vars;
+                for (size_t k = 0; k < cx.vars.size(); ++k) vars[cx.vars[k].id()] = k < nv ? of_hex32(t[3 + k]) : 0.0f;
+                Evaluator E(std::make_shared<Deck>(topt), vars);
+                size_t pos = 3 + nv;
+                int qi = 0, nbad = 0; std::string firstbad;
+                auto bits = [](float f) { uint32_t u; memcpy(&u, &f, 4); if (std::isnan(f)) u = 0x7fc00000; return u; };
+                auto pt3 = [&](size_t at) { return Eigen::Vector3f(of_hex32(t[at]), of_hex32(t[at + 1]), of_hex32(t[at + 2])); };
+                auto batchpt = [](unsigned seed, int k) {
+                    unsigned s = seed * 2654435761u + k * 40503u;
+                    auto f = [&]() { s = s * 1664525u + 1013904223u; return ((s >> 8) & 0xffff) / 16384.0f - 2.0f; };
+                    float a = f(), b = f(), c2 = f(); return Eigen::Vector3f(a, b, c2); };
+                while (pos < t.size()) {
+                    if (t[pos] == "|") { ++pos; continue; }
+                    std::string q = t[pos];
+                    Evaluator Fr(std::make_shared<Deck>(topt), vars);   // fresh evaluator, same variable values
+                    std::vector<uint32_t> a1, a2;
+                    auto pushf = [&](std::vector<uint32_t>& o, float f) { o.push_back(bits(f)); };
+                    auto run = [&](Evaluator& ev, std::vector<uint32_t>& o, bool live) {
+                        if (q == "V") { pushf(o, ev.value(pt3(pos + 1))); }
+                        else if (q == "B") { int n = std::stoi(t[pos + 1]); unsigned sd = std::stoul(t[pos + 2]);
+                            for (int k = 0; k < n; ++k) ev.set(batchpt(sd, k), k);
+                            auto r = ev.values(n); for (int k = 0; k < n; ++k) pushf(o, r(k)); }
+                        else if (q == "D") { auto r = ev.deriv(pt3(pos + 1)); for (int k = 0; k < 4; ++k) pushf(o, r(k)); }
+                        else if (q == "DS") { int n = std::stoi(t[pos + 1]); unsigned sd = std::stoul(t[pos + 2]);
+                            for (int k = 0; k < n; ++k) ev.set(batchpt(sd, k), k);
+                            auto r = ev.derivs(n); for (int k = 0; k < n; ++k) for (int j = 0; j < 4; ++j) pushf(o, r(j, k)); }
+                        else if (q == "F") { auto fs = ev.features(pt3(pos + 1));
+                            std::vector<std::array<uint32_t, 3>> l;
+                            for (auto& f : fs) l.push_back({bits(f.x()), bits(f.y()), bits(f.z())});
+                            std::sort(l.begin(), l.end());
+                            for (auto& e : l) for (auto u : e) o.push_back(u); }
+                        else if (q == "I") { o.push_back(ev.isInside(pt3(pos + 1)) ? 1 : 0); }
+                        else if (q == "R") { auto r = ev.eval(pt3(pos + 1), pt3(pos + 4)); pushf(o, r.lower()); pushf(o, r.upper()); o.push_back(r.isSafe()); }
+                        else if (q == "P") { auto r = ev.intervalAndPush(pt3(pos + 1), pt3(pos + 4));
+                            pushf(o, r.first.lower()); pushf(o, r.first.upper()); o.push_back(r.first.isSafe());
+                            pushf(o, ev.value(pt3(pos + 7), *r.second));
+                            auto dd = ev.deriv(pt3(pos + 7), *r.second); for (int k = 0; k < 4; ++k) pushf(o, dd(k));
+                            if (r.second != ev.getDeck()->tape) ev.getDeck()->claim(std::move(r.second)); }
+                        else if (q == "VP") { auto r = ev.valueAndPush(pt3(pos + 1)); pushf(o, r.first);
+                            pushf(o, ev.value(pt3(pos + 1), *r.second));
+                            if (r.second != ev.getDeck()->tape) ev.getDeck()->claim(std::move(r.second)); }
+                        else if (q == "G") { auto g = ev.gradient(pt3(pos + 1));
+                            for (auto& v : cx.vars) { auto it = g.find(v.id()); if (it != g.end()) pushf(o, it->second); } }
+                        else if (q == "A") { int n = std::stoi(t[pos + 1]); unsigned sd = std::stoul(t[pos + 2]);
+                            for (int k = 0; k < n; ++k) ev.set(batchpt(sd, k), k);
+                            ev.values(n); auto r = ev.getAmbiguous(n); for (int k = 0; k < n; ++k) o.push_back(r(k) ? 1 : 0); }
+                        else if (q == "AD") { int n = std::stoi(t[pos + 1]); unsigned sd = std::stoul(t[pos + 2]);
+                            for (int k = 0; k < n; ++k) ev.set(batchpt(sd, k), k);
+                            ev.derivs(n); auto r = ev.getAmbiguousDerivs(n); for (int k = 0; k < n; ++k) o.push_back(r(k) ? 1 : 0); }
+                        (void)live;
+                    };
+                    size_t adv = 1;
+                    bool compare = true;
+                    if (q == "SV") {   // single variable on both underlying evaluators
+                        size_t k = std::stoul(t[pos + 1]); float val = of_hex32(t[pos + 2]);
+                        if (k < cx.vars.size()) {
+                            bool was = bits(vars[cx.vars[k].id()]) != bits(val) && !(vars[cx.vars[k].id()] == val);
+                            std::map<Tree::Id, float> one = {{cx.vars[k].id(), val}};
+                            bool changed = E.updateVars(one);
+                            bool in_deck = E.getDeck()->vars.right.find(cx.vars[k].id()) != E.getDeck()->vars.right.end();
+                            vars[cx.vars[k].id()] = val;
+                            if (changed != (was && in_deck)) { ++nbad; if (firstbad.empty()) firstbad = " q" + std::to_string(qi) + ":updateVars flag"; }
+                        }
+                        adv = 3; compare = false;
+                    } else if (q == "UV") {
+                        size_t n = std::stoul(t[pos + 1]);
+                        std::map<Tree::Id, float> upd; bool expect = false;
+                        for (size_t j = 0; j < n; ++j) {
+                            size_t k = std::stoul(t[pos + 2 + 2 * j]); float val = of_hex32(t[pos + 3 + 2 * j]);
+                            if (k >= cx.vars.size()) continue;
+                            bool in_deck = E.getDeck()->vars.right.find(cx.vars[k].id()) != E.getDeck()->vars.right.end();
+                            if (in_deck && !(vars[cx.vars[k].id()] == val)) expect = true;
+                            upd[cx.vars[k].id()] = val; vars[cx.vars[k].id()] = val;
+                        }
+                        bool changed = E.updateVars(upd);
+                        if (changed != expect) { ++nbad; if (firstbad.empty()) firstbad = " q" + std::to_string(qi) + ":updateVars flag"; }
+                        adv = 2 + 2 * n; compare = false;
+                    } else {
+                        run(E, a1, true); std::fesetround(FE_TONEAREST);
+                        run(Fr, a2, false); std::fesetround(FE_TONEAREST);
+                        adv = (q == "V" || q == "D" || q == "F" || q == "I" || q == "VP" || q == "G") ? 4
+                              : (q == "R") ? 7 : (q == "P") ? 10 : 3;
+                    }
+                    if (compare && a1 != a2) {
+                        ++nbad;
+                        if (firstbad.empty()) {
+                            firstbad = " q" + std::to_string(qi) + ":" + q + " long=";
+                            for (size_t k = 0; k < a1.size() && k < 8; ++k) { char b[12]; snprintf(b, sizeof b, "%08x,", a1[k]); firstbad += b; }
+                            firstbad += " fresh=";
+                            for (size_t k = 0; k < a2.size() && k < 8; ++k) { char b[12]; snprintf(b, sizeof b, "%08x,", a2[k]); firstbad += b; }
+                        }
+                    }
+                    pos += adv; ++qi;
+                }
+                out("HI queries=" + std::to_string(qi) + " bad=" + std::to_string(nbad) + firstbad);
             }
             else if (c == "ivcheck") {
                 // ivcheck h lx ly lz ux uy uz exact(0/1) : C02's statement on one expression and box
